@@ -1,6 +1,7 @@
 package main
 
 import (
+	"sync"
 	"github.com/zmap/zlint/v3/formattedoutput"
 	"os"
 	"bytes"
@@ -62,6 +63,82 @@ func init() {
 			} else if e2 == nil {
 				out.Violate(fmt.Sprintf("C14|out-of-range-decodes:%d", s), "out-of-range status decodes", s, nil, int(back))
 			}
+		}
+		// ---- the encoded labels are values: the bytes returned for one status are not changed by encoding another
+		{
+			var kept [][]byte
+			var want []string
+			for st := 0; st <= 7; st++ {
+				b, err := lint.LintStatus(st).MarshalJSON()
+				if err != nil {
+					continue
+				}
+				kept = append(kept, b)
+				want = append(want, string(b))
+			}
+			for i := range kept {
+				if string(kept[i]) != want[i] {
+					out.Violate("C14|encoded-label-overwritten", fmt.Sprintf("the bytes MarshalJSON returned for status %d read %s after other statuses were encoded (they read %s when returned)", i, kept[i], want[i]), i, want[i], string(kept[i]))
+				}
+			}
+		}
+		// ---- concurrent round trips: several goroutines encode and decode result sets at once, each must get back what
+		// the same round trip gives alone
+		{
+			corpus := loadCorpus()
+			type ref struct {
+				rs   *zlint.ResultSet
+				json string
+			}
+			var refs []ref
+			for i, cc := range corpus.Certs {
+				if i%40 == 0 {
+					rs := zlint.LintCertificate(cc.Cert)
+					if b, err := json.Marshal(rs); err == nil {
+						refs = append(refs, ref{rs, string(b)})
+					}
+				}
+			}
+			var wg sync.WaitGroup
+			var mu sync.Mutex
+			var problems []string
+			rounds := 150
+			if tier() == "thorough" {
+				rounds = 2000
+			}
+			for w := 0; w < 16; w++ {
+				wg.Add(1)
+				go func(id int) {
+					defer wg.Done()
+					for k := 0; k < rounds; k++ {
+						r := refs[(k+id)%len(refs)]
+						b, err := json.Marshal(r.rs)
+						why := ""
+						if err != nil {
+							why = "encoding fails: " + err.Error()
+						} else if string(b) != r.json {
+							why = "the encoded document differs from the one produced alone"
+						} else {
+							var back zlint.ResultSet
+							if err := json.Unmarshal(b, &back); err != nil {
+								why = "decoding fails: " + err.Error()
+							}
+						}
+						if why != "" {
+							mu.Lock()
+							if len(problems) < 5 {
+								problems = append(problems, why)
+							}
+							mu.Unlock()
+						}
+					}
+				}(w)
+			}
+			wg.Wait()
+			for _, pr := range problems {
+				out.Violate("C14|concurrent-roundtrip", "a result set encoded while other goroutines encode result sets: "+pr, map[string]interface{}{"goroutines": 16, "rounds": rounds}, nil, nil)
+			}
+			out.Stats["concurrent_roundtrips"] = 16 * rounds
 		}
 		// ---- raw tokens through UnmarshalJSON
 		toks := []string{`"pass"`, `"PASS"`, `"Pass"`, `"pass "`, `" pass"`, `""`, `"`, `pass`, `"info"`, `"notice"`, `"warn"`, `"warning"`, `"error"`, `"fatal"`,
